@@ -279,4 +279,264 @@ theorem lem_A_not (t : Expr)
     | paren e => simp only [lv] at heq; omega
     | un o e => simp only [lv] at heq; omega
 
+/-! ## prefix operators and primaries -/
+
+theorem lOr_le_lv (t : Expr) : lOr ≤ lv t := by
+  cases t <;> simp only [lv] <;> first | decide | (rename_i o _ _; have := binop_level_range o; have := lOr_eq; omega)
+
+theorem parse_lit (ty : Nat) (w : Bytes) (rest : List Tok) :
+    Parses (.lvl lUnary) (.lit ty w :: rest) (.val ty w, rest) 1 := by
+  apply parses_of_step (b := 0)
+  intro n _
+  rw [R_unary_lvl (Nat.le_refl _)]
+  simp [unaryOrPrim]
+
+theorem mkUnary_un {op : UnOp} {e : Expr} (h : op.folds = true → e.isIntVal = false) : mkUnary op e = .un op e := by
+  cases e with
+  | val ty v =>
+    unfold mkUnary
+    by_cases hf : op.folds = true
+    · have := h hf
+      simp only [Expr.isIntVal] at this
+      simp [hf, this]
+    · simp [hf]
+  | _ => rfl
+
+theorem args_loop (n : Bytes) (rest : List Tok) :
+    ∀ (es : List Expr) (e : Expr) (acc : List Expr), (∀ a, a ∈ e :: es → Producible a ∧ All a) →
+      ∃ b, b ≤ fuelK * (toksArgs (e :: es)).length ∧
+        Parses (.args n acc) (toksArgs (e :: es) ++ .sym .rp :: rest) (.func n (acc.reverse ++ e :: es), rest) b := by
+  have e14 := lUnary_eq; have e3 := lOr_eq
+  intro es
+  induction es with
+  | nil =>
+    intro e acc h
+    obtain ⟨_, Ae⟩ := h e (by simp)
+    obtain ⟨be, hbe, hPe⟩ := Ae.A lOr (Nat.le_refl _) (by omega) (lOr_le_lv e) (.sym .rp :: rest)
+      (stops_rp _ (by omega) _)
+    refine ⟨be + 1, ?_, ?_⟩
+    · rw [toksArgs_one]; unfold tlen at hbe; rw [fuelK_eq] at *; omega
+    · rw [toksArgs_one]
+      apply parses_of_step
+      intro k hk
+      simp [step, hPe k hk]
+  | cons e' es' ih =>
+    intro e acc h
+    obtain ⟨_, Ae⟩ := h e (by simp)
+    obtain ⟨be, hbe, hPe⟩ := Ae.A lOr (Nat.le_refl _) (by omega) (lOr_le_lv e)
+      (.sym .comma :: (toksArgs (e' :: es') ++ .sym .rp :: rest)) (stops_comma _ (by omega) _)
+    obtain ⟨br, hbr, hPr⟩ := ih e' (e :: acc) (fun a ha => h a (by simp at ha ⊢; right; exact ha))
+    refine ⟨be + br + 1, ?_, ?_⟩
+    · rw [toksArgs_cons2]; unfold tlen at hbe; rw [fuelK_eq] at *; simp; omega
+    · rw [toksArgs_cons2, List.append_assoc, List.cons_append]
+      apply parses_of_step
+      intro k hk
+      have := hPr k (by omega)
+      simp only [List.reverse_cons, List.append_assoc, List.singleton_append] at this
+      simp [step, hPe k (by omega), this]
+
+theorem lem_A_unary (t : Expr)
+    (ih : ∀ t', sizeOf t' < sizeOf t → Producible t' → All t') (hp : Producible t) : AtLevel t lUnary := by
+  intro hle rest hst
+  have e14 := lUnary_eq; have e3 := lOr_eq; have e7 := lCmp_eq; have e5 := lNot_eq; have e4 := lAnd_eq
+  have hlp : rest.head? ≠ some (.sym .lp) := by
+    intro h; exact absurd (hst _ h) (by decide)
+  cases t with
+  | val ty v =>
+    cases hp with
+    | val hok =>
+      unfold tlen
+      rw [toks_val]
+      cases v with
+      | nil => exact ⟨1, by rw [fuelK_eq]; simp; omega, parse_lit ty [] rest⟩
+      | cons c w =>
+        dsimp only
+        by_cases hc : (rawTy ty && c == minusByte) = true
+        · rw [if_pos hc]
+          simp only [Bool.and_eq_true, beq_iff_eq] at hc
+          obtain ⟨hraw, hcm⟩ := hc
+          subst hcm
+          obtain ⟨_, hsign⟩ := hok hraw
+          obtain ⟨hty, hw, hw2⟩ := hsign rfl
+          refine ⟨2, by rw [fuelK_eq]; simp; omega, ?_⟩
+          apply parses_of_step (b := 1)
+          intro n hn
+          rw [R_unary_lvl (Nat.le_refl _)]
+          have hl := parse_lit ty w rest n hn
+          have hu : Sym.unop .minus = some .uminus := by decide
+          have hf : UnOp.folds .uminus = true := by decide
+          simp only [List.cons_append, List.nil_append, unaryOrPrim, hu, hl, Option.bind_eq_bind, Option.bind_some]
+          simp only [mkUnary, hf, hty, beq_self_eq_true, Bool.and_self, if_true]
+          cases w with
+          | nil => exact absurd rfl hw
+          | cons c' w' =>
+            have : (c' == minusByte) = false := by
+              simp only [List.tail_cons, List.head?_cons] at hw2
+              cases hcc : (c' == minusByte) with
+              | false => rfl
+              | true => exact absurd (by rw [beq_iff_eq.mp hcc]) hw2
+            simp [this]
+        · rw [if_neg hc]; exact ⟨1, by rw [fuelK_eq]; simp; omega, parse_lit ty _ rest⟩
+  | null =>
+    refine ⟨1, by unfold tlen; rw [toks_null, fuelK_eq]; simp; omega, ?_⟩
+    rw [toks_null]
+    apply parses_of_step (b := 0)
+    intro n _
+    rw [R_unary_lvl (Nat.le_refl _)]
+    simp [unaryOrPrim, show Sym.unop .null = none by decide]
+  | bool b =>
+    refine ⟨1, by unfold tlen; rw [toks_bool, fuelK_eq]; simp; omega, ?_⟩
+    rw [toks_bool]
+    apply parses_of_step (b := 0)
+    intro n _
+    rw [R_unary_lvl (Nat.le_refl _)]
+    cases b <;> simp [unaryOrPrim, show Sym.unop .true_ = none by decide, show Sym.unop .false_ = none by decide]
+  | col nm =>
+    refine ⟨1, by unfold tlen; rw [toks_col, fuelK_eq]; simp; omega, ?_⟩
+    rw [toks_col]
+    apply parses_of_step (b := 0)
+    intro n _
+    rw [R_unary_lvl (Nat.le_refl _)]
+    cases rest with
+    | nil => simp [unaryOrPrim]
+    | cons tk r =>
+      cases tk with
+      | sym s =>
+        have : s ≠ .lp := by intro e; subst e; exact hlp rfl
+        cases s <;> first | exact absurd rfl this | simp [unaryOrPrim]
+      | lit ty v => simp [unaryOrPrim]
+      | id x => simp [unaryOrPrim]
+  | func nm as =>
+    cases hp with
+    | func hargs =>
+      cases as with
+      | nil =>
+        refine ⟨1, by unfold tlen; rw [toks_func, fuelK_eq]; simp; omega, ?_⟩
+        rw [toks_func, toksArgs_nil]
+        apply parses_of_step (b := 0)
+        intro n _
+        rw [R_unary_lvl (Nat.le_refl _)]
+        simp [unaryOrPrim]
+      | cons e es =>
+        have hall : ∀ a, a ∈ e :: es → Producible a ∧ All a := by
+          intro a ha
+          have hs : sizeOf a < sizeOf (Expr.func nm (e :: es)) := by
+            have := List.sizeOf_lt_of_mem ha
+            simp only [Expr.func.sizeOf_spec]; omega
+          exact ⟨hargs a ha, ih a hs (hargs a ha)⟩
+        obtain ⟨b, hb, hP⟩ := args_loop nm rest es e [] hall
+        obtain ⟨tk, tl, h1, h2, _⟩ := toks_head e
+        have hhead : ∃ tl', toksArgs (e :: es) = tk :: tl' := by
+          cases es with
+          | nil => exact ⟨tl, by rw [toksArgs_one, h1]⟩
+          | cons e' es' => exact ⟨tl ++ .sym .comma :: toksArgs (e' :: es'), by rw [toksArgs_cons2, h1]; rfl⟩
+        obtain ⟨tl', h1'⟩ := hhead
+        refine ⟨b + 1, ?_, ?_⟩
+        · unfold tlen; rw [toks_func, fuelK_eq] at *; simp; omega
+        · rw [toks_func]
+          apply parses_of_step
+          intro n hn
+          rw [R_unary_lvl (Nat.le_refl _)]
+          have := hP n hn
+          simp only [List.reverse_nil, List.nil_append] at this
+          simp only [List.cons_append, List.append_assoc, List.singleton_append]
+          rw [h1'] at this ⊢
+          cases tk with
+          | sym s =>
+            have : s ≠ .rp := by intro e; subst e; exact h2 rfl
+            cases s <;> first | exact absurd rfl this | (simp only [List.cons_append, unaryOrPrim]; assumption)
+          | lit ty v => simp only [List.cons_append, unaryOrPrim]; assumption
+          | id x => simp only [List.cons_append, unaryOrPrim]; assumption
+  | paren e =>
+    cases hp with
+    | paren pe =>
+      have Ae := ih e (by simp) pe
+      obtain ⟨be, hbe, hPe⟩ := Ae.A lOr (Nat.le_refl _) (by omega) (lOr_le_lv e) (.sym .rp :: rest)
+        (stops_rp _ (by omega) _)
+      refine ⟨be + 1, ?_, ?_⟩
+      · have : tlen (.paren e) = tlen e + 2 := by simp [tlen, toks_paren]
+        rw [this, fuelK_eq] at *; omega
+      · rw [toks_paren]
+        apply parses_of_step
+        intro n hn
+        rw [R_unary_lvl (Nat.le_refl _)]
+        simp [unaryOrPrim, show Sym.unop .lp = none by decide, hPe n hn]
+  | un op e =>
+    cases hp with
+    | un pe hl hfold =>
+      have Ae := ih e (by simp; omega) pe
+      obtain ⟨be, hbe, hPe⟩ := Ae.A lUnary (by omega) (Nat.le_refl _) hl rest hst
+      refine ⟨be + 1, ?_, ?_⟩
+      · have : tlen (.un op e) = tlen e + 1 := by simp [tlen, toks_un]
+        rw [this, fuelK_eq] at *; omega
+      · rw [toks_un]
+        apply parses_of_step
+        intro n hn
+        rw [R_unary_lvl (Nat.le_refl _)]
+        have hu : op.sym.unop = some op := by cases op <;> decide
+        simp [unaryOrPrim, hu, hPe n hn, mkUnary_un hfold]
+  | or l r => simp only [lv] at hle; omega
+  | and l r => simp only [lv] at hle; omega
+  | not e => simp only [lv] at hle; omega
+  | is op e => simp only [lv] at hle; omega
+  | cmp op l r => simp only [lv] at hle; omega
+  | range n l lo hi => simp only [lv] at hle; omega
+  | bin o l r => simp only [lv] at hle; have := binop_level_range o; omega
+
+/-! ## assembly -/
+
+theorem all_of_producible : ∀ (N : Nat) (t : Expr), sizeOf t ≤ N → Producible t → All t := by
+  intro N
+  induction N with
+  | zero =>
+    intro t h
+    have : 0 < sizeOf t := by cases t <;> simp <;> omega
+    omega
+  | succ N ihN =>
+    intro t hsz hp
+    have ih : ∀ t', sizeOf t' < sizeOf t → Producible t' → All t' := fun t' h hp' => ihN t' (by omega) hp'
+    have e14 := lUnary_eq; have e3 := lOr_eq; have e7 := lCmp_eq; have e5 := lNot_eq; have e4 := lAnd_eq
+    have g : ∀ M, M ≠ 5 → M ≠ 7 → M < 14 → Generic M := fun M a b c => ⟨by omega, by omega, by omega⟩
+    have a14 : AtLevel t 14 := by rw [← e14]; exact lem_A_unary t ih hp
+    have b13 := lem_B t 13 (g 13 (by omega) (by omega) (by omega)) (by omega) ih hp (fun _ => a14)
+    have a13 := lem_A_of_B b13
+    have b12 := lem_B t 12 (g 12 (by omega) (by omega) (by omega)) (by omega) ih hp (fun _ => a13)
+    have a12 := lem_A_of_B b12
+    have b11 := lem_B t 11 (g 11 (by omega) (by omega) (by omega)) (by omega) ih hp (fun _ => a12)
+    have a11 := lem_A_of_B b11
+    have b10 := lem_B t 10 (g 10 (by omega) (by omega) (by omega)) (by omega) ih hp (fun _ => a11)
+    have a10 := lem_A_of_B b10
+    have b9 := lem_B t 9 (g 9 (by omega) (by omega) (by omega)) (by omega) ih hp (fun _ => a10)
+    have a9 := lem_A_of_B b9
+    have b8 := lem_B t 8 (g 8 (by omega) (by omega) (by omega)) (by omega) ih hp (fun _ => a9)
+    have a8 := lem_A_of_B b8
+    have i7 : IsStmt t := lem_I t ih hp (fun _ => by rw [e7]; exact a8)
+    have a7 : AtLevel t 7 := by rw [← e7]; exact lem_A_of_I i7
+    have b6 := lem_B t 6 (g 6 (by omega) (by omega) (by omega)) (by omega) ih hp (fun _ => a7)
+    have a6 := lem_A_of_B b6
+    have a5 : AtLevel t 5 := by rw [← e5]; exact lem_A_not t ih hp (fun _ => by rw [e5]; exact a6)
+    have b4 := lem_B t 4 (g 4 (by omega) (by omega) (by omega)) (by omega) ih hp (fun _ => a5)
+    have a4 := lem_A_of_B b4
+    have b3 := lem_B t 3 (g 3 (by omega) (by omega) (by omega)) (by omega) ih hp (fun _ => a4)
+    have a3 := lem_A_of_B b3
+    refine ⟨?_, ?_, i7⟩
+    · intro L h1 h2
+      have : L = 3 ∨ L = 4 ∨ L = 5 ∨ L = 6 ∨ L = 7 ∨ L = 8 ∨ L = 9 ∨ L = 10 ∨ L = 11 ∨ L = 12 ∨ L = 13 ∨ L = 14 := by
+        omega
+      rcases this with rfl | rfl | rfl | rfl | rfl | rfl | rfl | rfl | rfl | rfl | rfl | rfl <;> assumption
+    · intro M hg h1
+      obtain ⟨g1, g2, g3⟩ := hg
+      have : M = 3 ∨ M = 4 ∨ M = 6 ∨ M = 8 ∨ M = 9 ∨ M = 10 ∨ M = 11 ∨ M = 12 ∨ M = 13 := by omega
+      rcases this with rfl | rfl | rfl | rfl | rfl | rfl | rfl | rfl | rfl <;> assumption
+
+/-- **Round trip with an explicit fuel bound.** -/
+theorem roundtrip_fuel (t : Expr) (hp : Producible t) (n : Nat) (hn : fuelK * tlen t ≤ n) :
+    parseExprFuel n (toks t) = some t := by
+  have A := (all_of_producible (sizeOf t) t (Nat.le_refl _) hp).A lOr (Nat.le_refl _)
+    (by have := lOr_eq; have := lUnary_eq; omega) (lOr_le_lv t) [] (stops_nil _)
+  obtain ⟨b, hb, hP⟩ := A
+  have := hP n (by omega)
+  rw [List.append_nil] at this
+  simp [parseExprFuel, this]
+
 end AcraModel.Sql.Expr
